@@ -378,9 +378,13 @@ def gate(repo, schema=None, sites=None):
     sites = sites if sites is not None else T.collect_sites(repo, schema)
     cons = repo.mod("compiler/front_end/constraints.py")
     refs = repo.refs()
-    core = [f for f in cons.top_funcs() if "64-bit" in cons.seg(f.node) and "minimum_value" in cons.seg(f.node)]
-    if not core:
-        raise AnalysisError("constraints.py: 64-bit bounds function not found")
+    # the per-expression gate function: it takes an expression, mentions the 64-bit limit and the bounds, and calls itself
+    # on sub-expressions.  Other checks that merely *use* the 64-bit predicates (the end-of-field check) are not the gate.
+    core = [f for f in cons.top_funcs() if "64-bit" in cons.seg(f.node) and "minimum_value" in cons.seg(f.node)
+            and f.node.args.args and f.node.args.args[0].arg == "expression"
+            and any(isinstance(n, ast.Call) and call_name(n) == f.name for n in walk_no_nested_funcs(f.node))]
+    if len(core) != 1:
+        raise AnalysisError(f"constraints.py: 64-bit gate function not identified ({[f.name for f in core]})")
     core = core[0]
     gate_sites = [s for s in sites if s.module.rel == cons.rel and s.action is not None
                   and (s.action is core or core in refs.get(s.action.fq, ()))]
